@@ -141,7 +141,8 @@ M = [
  # --- mechanisms repaired after batch 8
  ('stale-copy-not-refused', 'ocp.py', "            if getattr(self, '_var_stale', False):\n", "            if False:\n", ['C13']),
  ('transcribe-in-place', 'ocp.py', "        if self._is_original and not kwargs:\n            self._transcribed # transcribes a copy: the declared specification stays as it is\n        else:\n            self._transcribe(**kwargs)", "        self._transcribe(**kwargs)", ['C13']),
- ('objective-without-substages', 'stage.py', "        for s in self._stages:\n            r = r + s.objective\n        return r", "        return r", ['C12']),
+ ('objective-without-substages', 'stage.py', "            r = r + cached[1]\n", "            pass\n", ['C12']),
+ ('objective-substages-summed-symbolically', 'stage.py', "            r = r + cached[1]\n", "            r = r + o\n", ['C12']),
  ('inf-time-frozen', 'sampling_method.py', "        subst_to.append(BSpline(basis, self.integrator_grid[k][l] + tscale*DM(range(degree+1))/degree))", "        subst_to.append(BSpline(basis, self.integrator_grid[k][l] + 0*tscale*DM(range(degree+1))/degree))", ['C15']),
  ('scalar-expression-guess-not-repeated', 'sampling_method.py', "                if value.shape[0]==1 and var.is_column() and not var.is_scalar(): value = repmat(value, var.shape[0], 1)\n            # Row vector if vector", "            # Row vector if vector", ['C10']),
  ('parent-constraint-scale-dropped', 'direct_method.py', "            self.opti.subject_to(self.eval_top(stage, c), scale=args[\"scale\"], meta = m)", "            self.opti.subject_to(self.eval_top(stage, c), meta = m)", ['C12']),
